@@ -15,7 +15,7 @@ MAP_TRACED = ("/tracklib/algo/mapping.py", "/tracklib/algo/dynamics.py")
 C06_OPS = ("dist", "dist_all", "all_pairs", "prepare", "prepared")
 C07_OPS = ("path", "path_multi", "forward", "backward")
 C10_OPS = ("map", "remap", "map_span")
-OTHER_OPS = ("add_edge", "reload", "index", "simplify", "sub_network", "set_weight", "save_prep", "load_prep", "rescale", "abs_again", "set_routing", "save_index", "load_index", "break_weight", "inspect_edge", "annotate_edges", "load_copy", "geo_roundtrip")
+OTHER_OPS = ("add_edge", "add_node", "reload", "index", "simplify", "sub_network", "set_weight", "save_prep", "load_prep", "rescale", "abs_again", "set_routing", "save_index", "load_index", "break_weight", "inspect_edge", "annotate_edges", "load_copy", "geo_roundtrip")
 
 
 def _wchoice(r, pairs):
@@ -112,7 +112,8 @@ class NetWorld(World):
                 "vertical_exact": r.choice([0, 0, 0.02]), "subnet": r.choice([0, 0.03, 0.1]),
                 "int_ids": (not road) and r.random() < 0.3,
                 "reweigh": r.choice([0, 0.05, 0.15]), "routing": r.choice([0, 0, 0.04, 0.1]),
-                "empty_id": r.random() < 0.15, "travel_time": r.random() < 0.3, "dense": r.random() < 0.08, "np_types": r.random() < 0.1,
+                "empty_id": r.random() < 0.15, "travel_time": r.random() < 0.3, "dense": r.random() < 0.08, "np_types": r.random() < 0.1, "empty_eid": r.random() < 0.12,
+                "lone": r.choice([0, 0, 0.04]),
                 "tiny_w": (not road) and (not hub) and r.random() < 0.12,
                 "tmode": r.choice(["inc", "inc", "rev", "same"]), "persist": r.choice([0, 0, 0.05, 0.12]),
                 "rescale": r.choice([0, 0.05, 0.15]),
@@ -332,6 +333,12 @@ class NetWorld(World):
             return self._g_add_edge(r, s, m)
         fam = _wchoice(r, [(k, w) for k, w in self.cfg["fam"].items() if w])
         if fam == "grow":
+            if not self.cfg["road"] and r.random() < self.cfg.get("lone", 0):
+                # a junction declared on its own (no road yet, perhaps never)
+                k = r.randrange(self.cfg["max_nodes"])
+                ints = self.cfg.get("int_ids")
+                return {"op": "add_node", "s": s, "id": (k - 2) if ints else "n%d" % k,
+                        "p": [float(r.randint(0, 9)), float(r.randint(0, 9))]}
             if r.random() < 0.04:
                 return {"op": "simplify", "s": s, "tol": r.choice([0.5, 2.0, 5.0])}
             if self.cfg["road"] and not m["all_abs"] and r.random() < 0.5:
@@ -508,6 +515,8 @@ class NetWorld(World):
         self.ecount += 1
         ints = cfg.get("int_ids") and not cfg["road"]      # integer identifiers, 0 included
         eid = (self.ecount - 1) if ints else "e%d" % self.ecount
+        if not ints and cfg.get("empty_eid") and not any(e["id"] == "" for e in m["edges"]) and r.random() < 0.3:
+            eid = ""                   # a blank identifier column: legal, and falsy
         st = {"op": "add_edge", "s": s, "id": eid}
         if cfg["road"]:
             g, step = cfg["grid"], cfg["step"]
@@ -641,6 +650,33 @@ class NetWorld(World):
         self.model[s] = {"nodes": {}, "edges": [], "fw": None, "index": None, "prepared": None, "ptable": None,
                          "grown_since_prepare": False, "exact": True, "all_abs": True}
 
+    @staticmethod
+    def _drop_lone(m):
+        """A network file lists roads: a junction no road ends at is not in the network read back."""
+        order = []
+        for e in m["edges"]:
+            for v in (e["s"], e["t"]):
+                if v not in order:
+                    order.append(v)
+        old = dict(m["nodes"])
+        m["nodes"].clear()
+        for v in order:                 # ... and the junctions come in the order the roads mention them
+            m["nodes"][v] = old[v]
+
+    def op_add_node(self, st):
+        from tracklib.core import ENUCoords, Node
+        net, m = self._sess(st)
+        if st["id"] in m["nodes"] or m.get("broken") is not None:
+            raise Skip()
+        _, exc = self.call(net.addNode, Node(st["id"], ENUCoords(st["p"][0], st["p"][1], 0)))
+        if exc is not None:
+            return self._unexpected("C06", exc, "addNode(%r)" % (st["id"],))
+        m["nodes"][st["id"]] = list(st["p"])
+        m["fw"] = None
+        m["version"] = m.get("version", 0) + 1
+        m["grown_since_prepare"] = True
+        self.probe("junction_declared_without_a_road")
+
     def op_add_edge(self, st):
         from tracklib.core import Track, Obs, ENUCoords, Node, Edge
         from tracklib.algo.cinematics import computeAbsCurv
@@ -666,7 +702,7 @@ class NetWorld(World):
         if st.get("abs"):
             computeAbsCurv(geom)
         e = Edge(st["id"], geom)
-        e.orientation = st["o"]
+        e.orientation = self._np(st["o"])
         w = st["w"] if st["w"] is not None else geom.length() * st.get("wf", 1.0)
         e.weight = self._np(w)
         na, nb = Node(a, ENUCoords(pa[0], pa[1], 0)), Node(b, ENUCoords(pb[0], pb[1], 0))
@@ -1160,6 +1196,7 @@ class NetWorld(World):
                 return "fault"                 # the session keeps its in-memory network
             return self._unexpected("C06", exc, "network reload")
         self.real[st.get("s", 0)] = new
+        self._drop_lone(m)
         if with_w:
             self.probe("network_loaded_from_a_file_with_weights")
             m.update({"fw": None, "index": None, "prepared": None, "ptable": None, "grown_since_prepare": False,
@@ -1249,6 +1286,7 @@ class NetWorld(World):
             self.fail("C06", "network.reload_structure", "edges of the network after the geographic round trip", exp, got)
             return
         self.real[st.get("s", 0)] = new
+        self._drop_lone(m)
         for e in m["edges"]:
             g = new.getEdge(e["id"]).geom
             e["pts"] = [[o.position.getX(), o.position.getY()] for o in g]
